@@ -1550,10 +1550,10 @@ class PrepareAst:
                         {},
                     )
 
-                    call_expr.add_bound_statement(value_expr)
-                    call_expr.add_bound_statement(slice_expr)
-
-                    return call_expr
+                    # the object and the index are evaluated before the element is selected
+                    return out.Value(
+                        call_expr.result(), [value_expr, slice_expr, call_expr]
+                    )
 
             raise AssertionError(f"invalid context {inp.ctx}")
 
